@@ -28,6 +28,10 @@ type Session struct {
 	C         *Ctx
 	Kind      string // "z3", "z3-new", "cvc5"
 	TimeoutMs int
+	IncMs     int // time limit of the incremental attempt; unknown answers are retried one-shot
+	OneShots  int
+	RestartEvery int // restart the solver process after this many queries (keeps its context small)
+	sinceStart   int
 	cmd       *exec.Cmd
 	in        io.WriteCloser
 	out       *bufio.Reader
@@ -41,28 +45,66 @@ type Session struct {
 	Restarts  int
 	Log       io.Writer // optional transcript
 	Errors    int
-	facts     []*Term // permanent assertions (true facts about uninterpreted functions)
 	factSet   map[int]bool
-	factsSent int
+	factsBy   map[string][]*Term
+	ufMemo    map[int][]string
 }
 
-// AddFact asserts t permanently (it must be valid in the intended interpretation).
-func (s *Session) AddFact(t *Term) {
+// AddFact records a true fact about the uninterpreted function name; it is added as
+// an extra assumption to every query whose terms mention that function (and to no
+// other query, so pure floating-point queries stay pure).
+func (s *Session) AddFact(name string, t *Term) {
 	if t.IsConst() {
 		return
 	}
 	if s.factSet == nil {
 		s.factSet = map[int]bool{}
+		s.factsBy = map[string][]*Term{}
+		s.ufMemo = map[int][]string{}
 	}
 	if s.factSet[t.ID] {
 		return
 	}
 	s.factSet[t.ID] = true
-	s.facts = append(s.facts, t)
+	s.factsBy[name] = append(s.factsBy[name], t)
+}
+
+// ufNames lists the uninterpreted functions occurring in t.
+func (s *Session) ufNames(t *Term, acc map[string]bool, seen map[int]bool) {
+	if seen[t.ID] {
+		return
+	}
+	seen[t.ID] = true
+	if t.Op == OUF {
+		acc[t.Name] = true
+	}
+	for _, a := range t.Args {
+		s.ufNames(a, acc, seen)
+	}
+}
+
+func (s *Session) withFacts(lits []*Term) []*Term {
+	if len(s.factsBy) == 0 {
+		return lits
+	}
+	acc, seen := map[string]bool{}, map[int]bool{}
+	for _, t := range lits {
+		s.ufNames(t, acc, seen)
+	}
+	for name := range acc {
+		lits = append(lits, s.factsBy[name]...)
+	}
+	return lits
 }
 
 func NewSession(c *Ctx, kind string, timeoutMs int) (*Session, error) {
-	s := &Session{C: c, Kind: kind, TimeoutMs: timeoutMs}
+	s := &Session{C: c, Kind: kind, TimeoutMs: timeoutMs, IncMs: 8000, RestartEvery: 400}
+	if v, err := strconv.Atoi(os.Getenv("GOSX_RESTART_EVERY")); err == nil && v > 0 {
+		s.RestartEvery = v
+	}
+	if s.IncMs > timeoutMs {
+		s.IncMs = timeoutMs
+	}
 	if p := os.Getenv("GOSX_SMTLOG"); p != "" {
 		f, _ := os.OpenFile(p, os.O_CREATE|os.O_WRONLY|os.O_APPEND, 0644)
 		s.Log = f
@@ -76,7 +118,7 @@ func (s *Session) start() error {
 	case "z3", "z3-new":
 		cmd = exec.Command(s.Kind, "-in", "-smt2")
 	case "cvc5":
-		cmd = exec.Command("cvc5", "--incremental", "--lang=smt2", fmt.Sprintf("--tlimit-per=%d", s.TimeoutMs), "--produce-models", "--fp-exp")
+		cmd = exec.Command("cvc5", "--incremental", "--lang=smt2", fmt.Sprintf("--tlimit-per=%d", s.IncMs), "--produce-models", "--fp-exp")
 	default:
 		return fmt.Errorf("unknown solver %q", s.Kind)
 	}
@@ -96,7 +138,7 @@ func (s *Session) start() error {
 	s.defined = map[int]bool{}
 	s.declared = map[string]bool{}
 	s.indic = map[int]bool{}
-	s.factsSent = 0
+	s.sinceStart = 0
 	s.lines = make(chan string, 1024)
 	go func(r *bufio.Reader, ch chan string) {
 		for {
@@ -114,7 +156,7 @@ func (s *Session) start() error {
 	if s.Kind == "cvc5" {
 		pre = "(set-logic ALL)\n"
 	} else {
-		pre += fmt.Sprintf("(set-option :timeout %d)\n", s.TimeoutMs)
+		pre += fmt.Sprintf("(set-option :timeout %d)\n", s.IncMs)
 	}
 	s.send(pre)
 	return nil
@@ -177,18 +219,18 @@ func (s *Session) Check(conj []*Term, wantModel []*Term) (Result, Model) {
 		}
 		lits = append(lits, t)
 	}
+	lits = s.withFacts(lits)
 	s.Queries++
+	s.sinceStart++
+	if s.sinceStart > s.RestartEvery {
+		s.restart()
+	}
 	t0 := time.Now()
 	defer func() { s.SolverNs += time.Since(t0).Nanoseconds() }()
 
 	for attempt := 0; attempt < 2; attempt++ {
 		var sb strings.Builder
 		var names []string
-		for ; s.factsSent < len(s.facts); s.factsSent++ {
-			f := s.facts[s.factsSent]
-			s.C.Emit(f, s.defined, s.declared, &sb)
-			fmt.Fprintf(&sb, "(assert %s)\n", ref(f))
-		}
 		for _, t := range lits {
 			s.C.Emit(t, s.defined, s.declared, &sb)
 			if t.Op == OVar {
@@ -208,10 +250,10 @@ func (s *Session) Check(conj []*Term, wantModel []*Term) (Result, Model) {
 		marker := fmt.Sprintf("<<%d>>", s.seq)
 		fmt.Fprintf(&sb, "(check-sat-assuming (%s))\n(echo \"%s\")\n", strings.Join(names, " "), marker)
 		s.send(sb.String())
-		lines, ok := s.readUntil(marker, time.Duration(s.TimeoutMs)*time.Millisecond+10*time.Second)
+		lines, ok := s.readUntil(marker, time.Duration(s.IncMs)*time.Millisecond+10*time.Second)
 		if !ok {
 			s.restart()
-			return Unknown, nil
+			return s.oneShot(lits, wantModel)
 		}
 		res := Unknown
 		bad := false
@@ -238,6 +280,9 @@ func (s *Session) Check(conj []*Term, wantModel []*Term) (Result, Model) {
 				continue
 			}
 			return Unknown, nil
+		}
+		if res == Unknown {
+			return s.oneShot(lits, wantModel)
 		}
 		if res != Sat || len(wantModel) == 0 {
 			return res, nil
@@ -361,4 +406,80 @@ func parseValue(v []string) (uint64, error) {
 		return strconv.ParseUint(v[2][2:], 10, 64)
 	}
 	return 0, fmt.Errorf("value %v", v)
+}
+
+// oneShot decides the query in a fresh, non-incremental solver process (much stronger
+// preprocessing for floating-point queries than the incremental core).
+func (s *Session) oneShot(lits []*Term, wantModel []*Term) (Result, Model) {
+	s.OneShots++
+	var sb strings.Builder
+	defined, declared := map[int]bool{}, map[string]bool{}
+	if s.Kind == "cvc5" {
+		sb.WriteString("(set-logic ALL)\n(set-option :produce-models true)\n")
+	} else {
+		sb.WriteString("(set-option :produce-models true)\n")
+	}
+	for _, t := range lits {
+		s.C.Emit(t, defined, declared, &sb)
+		fmt.Fprintf(&sb, "(assert %s)\n", ref(t))
+	}
+	for _, v := range wantModel {
+		s.C.Emit(v, defined, declared, &sb)
+	}
+	sb.WriteString("(check-sat)\n")
+	var cmd *exec.Cmd
+	switch s.Kind {
+	case "cvc5":
+		cmd = exec.Command("cvc5", "--lang=smt2", fmt.Sprintf("--tlimit=%d", s.TimeoutMs), "--fp-exp")
+	default:
+		cmd = exec.Command(s.Kind, "-in", "-smt2", fmt.Sprintf("-t:%d", s.TimeoutMs))
+	}
+	if len(wantModel) > 0 {
+		var vs []string
+		for _, v := range wantModel {
+			vs = append(vs, symName(v.Name))
+		}
+		fmt.Fprintf(&sb, "(get-value (%s))\n", strings.Join(vs, " "))
+	}
+	if s.Log != nil {
+		fmt.Fprintf(s.Log, "; ---- one-shot ----\n%s; ---- end one-shot ----\n", sb.String())
+	}
+	cmd.Stdin = strings.NewReader(sb.String())
+	done := make(chan struct{})
+	var out []byte
+	go func() {
+		out, _ = cmd.CombinedOutput()
+		close(done)
+	}()
+	select {
+	case <-done:
+	case <-time.After(time.Duration(s.TimeoutMs)*time.Millisecond + 15*time.Second):
+		if cmd.Process != nil {
+			cmd.Process.Kill()
+		}
+		<-done
+		return Unknown, nil
+	}
+	txt := string(out)
+	first, rest, _ := strings.Cut(strings.TrimSpace(txt), "\n")
+	switch strings.TrimSpace(first) {
+	case "unsat":
+		if strings.Contains(rest, "(error") && !strings.Contains(rest, "model is not available") {
+			s.Errors++
+			return Unknown, nil
+		}
+		return Unsat, nil
+	case "sat":
+		if len(wantModel) == 0 {
+			return Sat, nil
+		}
+		m, err := parseModel(strings.ReplaceAll(rest, "\n", " "), wantModel)
+		if err != nil {
+			s.Errors++
+			fmt.Fprintf(os.Stderr, "gosx: one-shot model parse: %v in %q\n", err, rest)
+			return Unknown, nil
+		}
+		return Sat, m
+	}
+	return Unknown, nil
 }
